@@ -1,6 +1,7 @@
 // C01 (opening of masked cards, discrete-log encoding) and C08 (common key).
 #include "common.hh"
 #include <memory>
+#include <set>
 
 struct Player {
 	std::unique_ptr<BarnettSmartVTMF_dlog> vtmf;
@@ -114,43 +115,51 @@ static int drv_vtmf(const Opts &o)
 		emit("vtmf.open " + P.str() + " " + Q.str() + " " + G.str() + " " + std::to_string(w) + " " + std::to_string(T) + " " + (priv ? "1" : "0") + " " +
 			zlist(xs.begin(), xs.end()) + " " + zlist(rs.begin(), rs.end()) + " " + ulist(taps) + " " + ulist(present) + " " + std::to_string(opener) + " => " + out);
 
-		// ---- C08: a history of contributions and removals processed by player 0 (fresh instance)
+		// ---- C08: a history of contributions and removals processed by a fresh instance; every
+		// contribution is recorded as (key, c, r) so that the model decides acceptance itself
 		{
 			std::unique_ptr<BarnettSmartVTMF_dlog> v(new_vtmf(qr, grp.str(), pbits, qbits));
 			v->KeyGenerationProtocol_GenerateKey();
 			Z x0; mpz_set(x0, v->x_i);
-			std::string ops = "["; std::string rets = "[";
+			std::string ops = "[", rets = "[";
 			size_t nops = g.below(thorough ? 40 : 14);
-			std::vector<size_t> accepted;
+			hashlog.log = true; hashlog.shash_inputs.clear();
 			for (size_t s = 0; s < nops; s++) {
 				size_t j = g.below(k);
-				int kind = g.below(10);
-				std::string line = pub[j];
-				Z key, cc2, rr; { std::istringstream is(line); is >> key.v >> cc2.v >> rr.v; }
-				Z fp; tmcg_mpz_shash(fp, 1, key.v);
-				bool ret; char tag;
-				if (kind < 5) { // honest contribution (maybe a duplicate)
-					std::istringstream is(line); ret = v->KeyGenerationProtocol_UpdateKey(is); tag = ret ? 'a' : 'x';
-				} else if (kind < 7) { // corrupted contribution: wrong response / wrong challenge / key outside the group / missing proof
-					int how = g.below(5);
-					std::ostringstream os;
-					if (how == 0) { mpz_add_ui(rr, rr, 1); os << key.v << std::endl << cc2.v << std::endl << rr.v << std::endl; }
-					else if (how == 1) { mpz_add_ui(cc2, cc2, 1); os << key.v << std::endl << cc2.v << std::endl << rr.v << std::endl; }
-					else if (how == 2) { mpz_add(key, key, v->p); os << key.v << std::endl << cc2.v << std::endl << rr.v << std::endl; mpz_sub(key, key, v->p); }
-					else if (how == 3) { os << key.v << std::endl; }
-					else { Z k2; mpz_sub(k2, v->p, key); os << k2.v << std::endl << cc2.v << std::endl << rr.v << std::endl; }
+				int kind = g.below(12);
+				Z key, cc2, rr; { std::istringstream is(pub[j]); is >> key.v >> cc2.v >> rr.v; }
+				bool ret; std::string op;
+				if (kind < 8) {
+					std::string txt; bool parsed = true;
+					if (kind >= 5) { // corrupted or forged contribution
+						int how = g.below(9);
+						if (how == 0) mpz_add_ui(rr, rr, 1);
+						else if (how == 1) mpz_add_ui(cc2, cc2, 1);
+						else if (how == 2) mpz_add(key, key, v->p);
+						else if (how == 3) parsed = false;                       // proof missing
+						else if (how == 4) mpz_sub(key, v->p, key);              // p - key: outside the group
+						else if (how == 5) mpz_add(rr, rr, v->q);                // r + q
+						else if (how == 6) mpz_sub(rr, rr, v->q);                // r - q: the equivalent representative
+						else if (how == 7) { // forgery attempt: arbitrary element, response with a bit beyond the table, c = H(.., 0)
+							Z e, zero; gen_below(e, g, v->q); mpz_powm(key, v->g, e, v->p); mpz_set_ui(rr, 1); mpz_mul_2exp(rr, rr, mpz_sizeinbase(v->q, 2));
+							tmcg_mpz_shash(cc2, 5, v->p, v->q, v->g, key.v, zero.v); }
+						else { Z e, one(1L); gen_below(e, g, v->q); mpz_powm(key, v->g, e, v->p); mpz_set_ui(rr, 0); tmcg_mpz_shash(cc2, 5, v->p, v->q, v->g, key.v, one.v); } // r = 0, c = H(.., 1)
+					}
+					std::ostringstream os; os << key.v << std::endl; if (parsed) os << cc2.v << std::endl << rr.v << std::endl;
 					std::istringstream is(os.str());
 					std::string r2 = guarded([&]() { return std::string(v->KeyGenerationProtocol_UpdateKey(is) ? "1" : "0"); });
-					ret = (r2 == "1"); tag = ret ? 'a' : 'x';
+					ret = (r2 == "1");
+					op = parsed ? ("u:" + key.str() + ":" + cc2.str() + ":" + rr.str()) : std::string("m:") + key.str();
 				} else { // removal
-					std::istringstream is(line); ret = v->KeyGenerationProtocol_RemoveKey(is); tag = 'r';
+					std::istringstream is(pub[j]); ret = v->KeyGenerationProtocol_RemoveKey(is); op = "r:" + key.str();
 				}
 				if (ops.size() > 1) { ops += ","; rets += ","; }
-				if (tag == 'r') ops += "r:" + fp.str(); else ops += std::string(1, tag) + ":" + fp.str() + ":" + key.str();
-				rets += ret ? "1" : "0";
+				ops += op; rets += ret ? "1" : "0";
 			}
 			ops += "]"; rets += "]";
-			emit("vtmf.key " + P.str() + " " + Q.str() + " " + G.str() + " " + x0.str() + " " + ops + " => " + zs(v->h) + " " + std::to_string(v->KeyGenerationProtocol_NumberOfKeys()) + " " + rets);
+			std::string log = "["; { std::vector<std::string> qs; qs.swap(hashlog.shash_inputs); hashlog.log = false; std::set<std::string> seen; for (auto &q : qs) { if (!seen.insert(q).second) continue; Z a; tmcg_mpz_shash(a, q); if (log.size() > 1) log += ","; log += hexs(q) + ":" + a.str(); } }
+			log += "]";
+			emit("vtmf.key " + std::string(qr ? "qr " : "schnorr ") + P.str() + " " + Q.str() + " " + G.str() + " " + x0.str() + " " + ops + " " + log + " => " + zs(v->h) + " " + std::to_string(v->KeyGenerationProtocol_NumberOfKeys()) + " " + rets);
 		}
 	}
 	return 0;
